@@ -239,4 +239,63 @@ theorem u8x3_sse4_loads_in_row (w start : Nat) (ks : List Int) (hwin : start + k
     simp only
     omega
 
+/-! ### the four-row kernel: per row the very same register contents as the one-row kernel -/
+
+theorem step4R_eq_step4 (s row : List Int) (x : Nat) (k0 k1 k2 k3 : Int) :
+    step4R s row x k0 k1 k2 k3 = step4 s row x k0 k1 k2 k3 := by
+  simp only [step4R, step4, clone4, low64, pshufb, kBytes, u8x3_sse4_four_sh_lo, u8x3_sse4_four_sh_hi, u8x3_sse4_pix_sh1,
+    u8x3_sse4_pix_sh2, u8x3_sse4_coef_sh1, u8x3_sse4_coef_sh2, List.map, List.flatMap_cons, List.flatMap_nil, List.append_nil,
+    List.replicate, List.cons_append, List.nil_append]
+  simp
+
+theorem step2R_eq_step2 (s row : List Int) (x : Nat) (k0 k1 : Int) : step2R s row x k0 k1 = step2 s row x k0 k1 := by
+  simp [step2R, step2, u8x3_sse4_four_sh_lo, u8x3_sse4_pix_sh1]
+
+theorem loop4R_eq (maxX : Nat) (row : List Int) : ∀ (m : Nat) (ks : List Int) (_hm : ks.length ≤ m) (x : Nat) (s : List Int),
+    loop4R maxX row ks x s = loop4 maxX row ks x s := by
+  intro m
+  induction m with
+  | zero =>
+    intro ks hm x s
+    have : ks = [] := List.length_eq_zero_iff.mp (by omega)
+    subst this; simp [loop4R, loop4]
+  | succ m ih =>
+    intro ks hm x s
+    match ks, hm with
+    | k0 :: k1 :: k2 :: k3 :: rest, hm =>
+      simp only [loop4R, loop4, step4R_eq_step4]
+      split
+      · exact ih rest (by simp at hm; omega) _ _
+      · rfl
+    | [], _ => simp [loop4R, loop4]
+    | [a], _ => simp [loop4R, loop4]
+    | [a, b], _ => simp [loop4R, loop4]
+    | [a, b, c], _ => simp [loop4R, loop4]
+
+theorem loop2R_eq (maxX : Nat) (row : List Int) : ∀ (m : Nat) (ks : List Int) (_hm : ks.length ≤ m) (x : Nat) (s : List Int),
+    loop2R maxX row ks x s = loop2 maxX row ks x s := by
+  intro m
+  induction m with
+  | zero =>
+    intro ks hm x s
+    have : ks = [] := List.length_eq_zero_iff.mp (by omega)
+    subst this; simp [loop2R, loop2]
+  | succ m ih =>
+    intro ks hm x s
+    match ks, hm with
+    | k0 :: k1 :: rest, hm =>
+      simp only [loop2R, loop2, step2R_eq_step2]
+      split
+      · exact ih rest (by simp at hm; omega) _ _
+      · rfl
+    | [], _ => simp [loop2R, loop2]
+    | [a], _ => simp [loop2R, loop2]
+
+/-- every row of the four-row kernel stores what the one-row kernel stores - hence what the portable kernel stores -/
+theorem u8x3_sse4_four_rows_eq_one_row (p w : Nat) (row : List Int) (start : Nat) (ks : List Int) :
+    Fir.SimdU8x3.pixelR p w row start ks = Fir.SimdU8x3.pixel p w row start ks := by
+  unfold Fir.SimdU8x3.pixelR Fir.SimdU8x3.pixel
+  simp only [loop4R_eq _ _ ks.length ks (le_refl _)]
+  rw [loop2R_eq _ _ _ _ (le_refl _)]
+
 end Fir.Proofs
